@@ -105,6 +105,7 @@ type PipeCfg struct {
 	Parallelism int
 	// cluster target
 	ClusterAddrs []string
+	NoRestore    bool // snapshot replay by native commands instead of RESTORE
 }
 
 func (c PipeCfg) String() string {
@@ -196,7 +197,7 @@ func (c PipeCfg) outputConfig(runID, cpName string) syncer.RedisOutputConfig {
 		BatchBufferSize:            c.BatchBytes,
 		KeepaliveTicker:            c.Keepalive,
 		ReplayRdbParallel:          1,
-		ReplayRdbEnableRestore:     true,
+		ReplayRdbEnableRestore:     !c.NoRestore,
 		ReplayPipeline:             c.Pipeline,
 		UpdateCheckpointTicker:     c.CpTicker,
 		MaxProtoBulkLen:            512 * 1024 * 1024,
